@@ -18,23 +18,23 @@ def variantOfSource : SyncGen.Variant :=
   { SyncGen.real with
     -- `beatree::SyncController::wait_pre_meta` joins the update task and awaits BOTH fsyncers, propagating their errors, and `Sync::sync` calls it before `Meta::write`
     waitBeatree := allBefore beatree_wait_pre_meta meta_write GenOrder.sync && allFallible beatree_wait_pre_meta GenOrder.sync &&
-      allFallible join_begin_task GenOrder.beatree_wait_pre_meta && allFallible await_bbn_fsync GenOrder.beatree_wait_pre_meta &&
-      allFallible await_ln_fsync GenOrder.beatree_wait_pre_meta &&
+      allFallible join_begin_task ctl_beatree_wait_pre_meta && allFallible await_bbn_fsync ctl_beatree_wait_pre_meta &&
+      allFallible await_ln_fsync ctl_beatree_wait_pre_meta &&
       -- the fsyncers are asked only after the update (which submits and awaits the page writes) has been prepared
-      allBefore prepare_sync request_bbn_fsync beatree_begin_sync && allBefore prepare_sync request_ln_fsync beatree_begin_sync
+      allBefore prepare_sync request_bbn_fsync ctl_beatree_begin_sync && allBefore prepare_sync request_ln_fsync ctl_beatree_begin_sync
     -- `write_ht` awaits the submitted pages before the table fsync
     waitHtWrites := allBefore submit_page await_completion write_ht && allBefore await_completion fsync write_ht && allBefore propagate_result fsync write_ht
     -- the table fsync (inside `write_ht`) precedes `truncate_wal` in `post_meta`
-    htFsync := occurs fsync write_ht && allFallible fsync write_ht && allBefore write_ht_call truncate_wal_call GenOrder.bitbox_post_meta &&
-      allFallible write_ht_call GenOrder.bitbox_post_meta }
+    htFsync := occurs fsync write_ht && allFallible fsync write_ht && allBefore write_ht_call truncate_wal_call ctl_bitbox_post_meta &&
+      allFallible write_ht_call ctl_bitbox_post_meta }
 
 /-- T4.order-3 the current source denotes the choreography the theorems are about, and the two joins the model has unconditionally in front of `Meta::write`
 are in the text: the WAL task is spawned only after the table pages were set aside, `bitbox.wait_pre_meta` joins both tasks and is called, fallibly, before `Meta::write` -/
 theorem T4_order_source_is_real_choreography :
     variantOfSource = SyncGen.real ∧
     allBefore bitbox_wait_pre_meta meta_write GenOrder.sync = true ∧ allFallible bitbox_wait_pre_meta GenOrder.sync = true ∧
-    allFallible join_begin_task GenOrder.bitbox_wait_pre_meta = true ∧ allFallible join_wal_task GenOrder.bitbox_wait_pre_meta = true ∧
-    allBefore set_ht_pages spawn_wal_writeout bitbox_begin_sync = true ∧ occurs write_wal_call bitbox_spawn_wal_writeout = true ∧
+    allFallible join_begin_task ctl_bitbox_wait_pre_meta = true ∧ allFallible join_wal_task ctl_bitbox_wait_pre_meta = true ∧
+    allBefore set_ht_pages spawn_wal_writeout ctl_bitbox_begin_sync = true ∧ occurs write_wal_call ctl_bitbox_spawn_wal_writeout = true ∧
     allBefore meta_write bitbox_post_meta GenOrder.sync = true ∧ allBefore meta_write rollback_post_meta GenOrder.sync = true := by decide
 
 /-- T4.order-4 hence every run of the choreography THE SOURCE DENOTES is accepted by the order monitor (T4.10 instantiated) -/
